@@ -136,7 +136,10 @@ CmpV(m, op, a, b) ==
        ELSE IF op = "Less" THEN "F" ELSE EqV(m, a, b)
   ELSE "U"
 Tri(m, r) == IF r = "U" THEN Unspec ELSE VBool(r = "T")
-TruthV(m, x) == IF IsUnspec(x) \/ IsTok(x) THEN "U" ELSE IF Truthy(x, TabLen(m, x)) THEN "T" ELSE "F"
+\* (the tokens "tiny" / "-tiny" are non-zero reals of very small magnitude: true like every non-zero number)
+TruthV(m, x) == IF IsUnspec(x) THEN "U"
+                ELSE IF IsTok(x) THEN (IF x.s \in {"tiny", "-tiny"} THEN "T" ELSE "U")
+                ELSE IF Truthy(x, TabLen(m, x)) THEN "T" ELSE "F"
 LenV(m, x) == CASE x.t = "nil" -> 0 [] x.t \in {"int", "real"} -> 1 [] x.t = "str" -> x.i
                 [] x.t = "ref" -> TabLen(m, x) [] OTHER -> 0
 
